@@ -18,7 +18,8 @@ from engine.ref import refstruct as rs
 
 PARAMS = {}
 
-FAMILIES = ["bool", "arith", "bv", "ite-bool", "ite-int", "ite-bv", "store", "uf", "times-div", "str", "int-div", "bv-misc"]
+FAMILIES = ["bool", "arith", "bv", "ite-bool", "ite-int", "ite-bv", "store", "uf", "times-div", "str", "int-div", "bv-misc",
+            "retry-arith", "retry-bool"]
 SERVICES = ["construct", "simplify", "substitute", "freevars", "atoms", "logic", "types", "qf", "size-dag", "nnf", "prenex", "aig",
             "times-distributor", "dagprint-parse"]
 
@@ -92,6 +93,24 @@ def build(env, family, d, share):
             o = t if share else L["j"]
             t = m.Function(L["f"], [t, o])
         return m.LT(t, L["j"])
+    if family in ("retry-arith", "retry-bool"):
+        # growing a formula with the usual "try one constructor, fall back to another" idiom: every level first attempts an
+        # ill-sorted application of the term built so far (rejected by the type checker), then builds the well-sorted one
+        t = L["i"] if family == "retry-arith" else L["a"]
+        for k in range(d):
+            o = t if share else (L["j"] if family == "retry-arith" else L["b"])
+            try:
+                if family == "retry-arith":
+                    m.And(m.LT(t, o), m.Plus(t, L["a"]))
+                else:
+                    m.Equals(t, o)          # Equals on Booleans is rejected: callers fall back to Iff
+            except Exception:
+                pass
+            if family == "retry-arith":
+                t = m.Plus(t, o) if k % 2 else m.Minus(m.Times(t, m.Int(2)), o)
+            else:
+                t = m.Iff(t, m.Not(o)) if k % 2 else m.Or(m.Not(t), o)
+        return m.LT(t, L["j"]) if family == "retry-arith" else t
     if family == "str":
         # every string operator, each level using the previous one several times
         t = L["u"]
